@@ -262,6 +262,26 @@ func run(c *rig.Ctx) {
 		total := int64(400000)
 		qc, qs := r.Intn(4), r.Intn(2)
 		base := schedule(r, total, qc, qs)
+		if i%4 == 3 {
+			// everything as loud as it gets: all four channels at full volume on the other side
+			// (the quiet channel among them), master volume 7 on both sides, the observed side
+			// carrying the other three
+			other, mine := uint8(0xf0), uint8(0x0f) // side 0 is the right one (low nibble of NR51)
+			if qs == 1 {
+				other, mine = 0x0f, 0xf0
+			}
+			nr51 := other | mine&^(0x11<<uint(qc))
+			base = []op{{0, 0xff26, 0x80}, {1, 0xff24, 0x77}, {2, 0xff25, nr51}}
+			for k := 0; k < 16; k++ {
+				base = append(base, op{3 + int64(k), 0xff30 + uint16(k), 0xff})
+			}
+			base = append(base,
+				op{20, 0xff11, 0xc0}, op{21, 0xff12, 0xf0}, op{22, 0xff13, r.U8()}, op{23, 0xff14, 0x80 | r.U8()&7},
+				op{24, 0xff16, 0xc0}, op{25, 0xff17, 0xf0}, op{26, 0xff18, r.U8()}, op{27, 0xff19, 0x80 | r.U8()&7},
+				op{28, 0xff1a, 0x80}, op{29, 0xff1c, 0x20}, op{30, 0xff1d, r.U8()}, op{31, 0xff1e, 0x80 | r.U8()&7},
+				op{32, 0xff21, 0xf0}, op{33, 0xff22, r.U8() & 0x77}, op{34, 0xff23, 0x80})
+			c.Count("paired_runs_at_full_volume", 1)
+		}
 		// variant: extra writes to the quiet channel's registers
 		var extra []op
 		regs := chanRegs(qc)
